@@ -162,6 +162,7 @@ func (pp *ppipe) delete() {
 }
 
 func (pp *ppipe) saveState(src string, st cursor.State) error {
+	verifHook("pipe-save-state", pp.cfg.Name, src)
 	pp.lock.Lock()
 	pd, ok := pp.partitions[src]
 	if !ok {
